@@ -303,7 +303,7 @@ def _alts(behs):
     index = {}
     keys = []
     for b in behs:
-        pre = ''
+        pre = json.dumps([b[0]['fm'], b[0].get('hook')])       # siblings belong to the same module configuration
         ks = []
         for st in b:
             key = pre + '|' + akey(st)
